@@ -759,6 +759,12 @@ class Machine:
                 if self.truth(v_, e) == (short == "filter"):
                     keep.append(x_)
             return keep
+        if name == "isinstance" and len(args) == 2 and isinstance(args[0], (list, tuple, dict, str, int, float)) and not isinstance(args[0], Opaque):
+            # a concrete value of the model against builtin classes
+            kinds = {"tuple": tuple, "list": list, "dict": dict, "str": str, "int": int, "float": float, "bool": bool}
+            cls_ = args[1] if isinstance(args[1], (tuple, list)) else (args[1],)
+            if all(isinstance(c_, Opaque) and c_.text in kinds for c_ in cls_):
+                return isinstance(args[0], tuple(kinds[c_.text] for c_ in cls_))
         if name in ("all", "any") and len(args) == 1 and isinstance(args[0], (list, tuple)):
             vals = [self.truth(x, e) for x in args[0]]
             return all(vals) if name == "all" else any(vals)
